@@ -2,6 +2,7 @@ use crate::tls_demultiplexer::Protocol;
 use crate::{authentication, datagram_pipe, log_utils, net_utils, pipe};
 use async_trait::async_trait;
 use bytes::Bytes;
+use futures::future::{self, BoxFuture};
 use http::uri::Authority;
 use http::{Response, StatusCode};
 use std::io;
@@ -112,6 +113,13 @@ pub(crate) trait PendingRespond: Send {
     /// it does not change the pending state of the object.
     fn send_intermediate_response(&self, _: ResponseHeaders) -> io::Result<()> {
         Ok(())
+    }
+
+    /// Get a future which completes as soon as the next response, intermediate or final,
+    /// can be sent after [`Self::send_intermediate_response()`]. The responses are not
+    /// back-pressured in any other way, so a caller relaying several of them must wait in between.
+    fn wait_intermediate_response_sent(&self) -> BoxFuture<'static, io::Result<()>> {
+        Box::pin(future::ready(Ok(())))
     }
 
     /// Send the response to a client
